@@ -2,7 +2,8 @@
    Only statements; every proof is [exact <lemma of proofs/SyncHBProofs.v>].
 
    [run_from rss md ops] is the scheduler shell (model/SyncHB.v) started on the rung systems
-   [rss] with mode [md] and driven by the event list [ops]: OSuggest (a worker asks for work),
+   [rss] with mode [md] and driven by the event list [ops]: OSuggest cfg_ok (a worker asks for
+   work; cfg_ok = false: the searcher has no config for a new trial, the job is reported as failed),
    OReport t below v (trial t reports metric v at resource = its milestone - below),
    OError t (trial t fails), OCollect.  t, below, v are arbitrary, so the theorems cover every
    order in which the pending jobs of any number of open brackets return and every subset of
@@ -29,7 +30,8 @@ Print Assumptions c05_top_k.
 (* In every reachable state, whenever the answer of a pending job completes a rung and returns
    the list [rem] of trials not promoted: the next rung consists exactly of [top] where
    (top, rem) = get_top_list of the completed rung's (trial, metric) entries and of the
-   configured size [nl] of the next rung — and the hypotheses of c05_top_k hold for it. *)
+   configured size [nl] of the next rung — and the hypotheses of c05_top_k hold for it (the
+   trials of the rung are distinct; if the searcher never failed every slot holds a trial). *)
 Theorem c05_promoted_are_top :
   forall rss md ops st t bid s v b b' rem, check_bracket_rungs rss = true ->
     run_from rss md ops = Ok st -> lookup t (s_pending st) = Some (bid, s) ->
@@ -42,21 +44,37 @@ Theorem c05_promoted_are_top :
       get_top_list md vals nl = (top, rem) /\
       current_rung_and_level b' = Ok (map (fun x => (x, None)) top, ms) /\
       current_rung b' = S (current_rung b) /\
-      NoDup (map fst vals) /\ (nl <= length vals)%nat.
+      NoDup (somes (map fst vals)) /\ (nl <= length vals)%nat /\
+      (searcher_ok ops -> NoDup (map fst vals)).
 Proof. exact promoted_are_top. Qed.
 Print Assumptions c05_promoted_are_top.
 
 (* Every completed rung of every bracket has exactly the configured size and level, every slot
-   holds a trial and a value, and the trials are pairwise distinct. *)
+   has a value, the trials are pairwise distinct; a slot without trial (the searcher had no
+   config for it) holds NaN. *)
 Theorem c05_rung_filled_by_distinct :
   forall rss md ops st, check_bracket_rungs rss = true -> run_from rss md ops = Ok st ->
   forall j b, nth_error (m_brackets (s_mgr st)) j = Some b ->
   forall k, (k < current_rung b)%nat ->
     exists sl lv, nth_error (rungs b) k = Some (Filled sl lv) /\
       nth_error (nth (j mod length rss) rss []) k = Some (length sl, lv) /\
-      Forall (fun s => exists t v, s = (Some t, Some v)) sl /\ NoDup (map fst sl).
+      Forall (fun s => snd s <> None) sl /\ NoDup (somes (map fst sl)) /\
+      (forall v, In (None, Some v) sl -> v = NaN).
 Proof. exact rung_filled_by_distinct. Qed.
 Print Assumptions c05_rung_filled_by_distinct.
+
+(* If the searcher always delivers: every slot of a completed rung holds (trial, value) and the
+   trials are pairwise distinct. *)
+Theorem c05_rung_filled_by_distinct_trials :
+  forall rss md ops st, check_bracket_rungs rss = true -> searcher_ok ops ->
+  run_from rss md ops = Ok st ->
+  forall j b, nth_error (m_brackets (s_mgr st)) j = Some b ->
+  forall k, (k < current_rung b)%nat ->
+    exists sl lv, nth_error (rungs b) k = Some (Filled sl lv) /\
+      nth_error (nth (j mod length rss) rss []) k = Some (length sl, lv) /\
+      Forall (fun s => exists t v, s = (Some t, Some v)) sl /\ NoDup (map fst sl).
+Proof. exact rung_filled_by_distinct_strict. Qed.
+Print Assumptions c05_rung_filled_by_distinct_trials.
 
 (* The rung being filled has the configured size and level, holds distinct trials and is not
    complete (some slot has no value yet). *)
@@ -71,7 +89,7 @@ Proof. exact current_rung_shape. Qed.
 Print Assumptions c05_current_rung_shape.
 
 (* A job handed out by next_job is a slot of rung [rung_index s] of an incomplete bracket, and
-   every slot of every lower rung of that bracket has a trial and a value. *)
+   every slot of every lower rung of that bracket has a value. *)
 Theorem c05_promote_after_complete :
   forall rss md ops st m' bid s, check_bracket_rungs rss = true ->
     run_from rss md ops = Ok st -> next_job (s_mgr st) = Ok (m', (bid, s)) ->
@@ -79,19 +97,21 @@ Theorem c05_promote_after_complete :
       is_bracket_complete b' = false /\
       forall k, (k < rung_index s)%nat ->
         exists sl lv, nth_error (rungs b') k = Some (Filled sl lv) /\
-                      Forall (fun x => exists t v, x = (Some t, Some v)) sl.
+                      Forall (fun x => snd x <> None) sl.
 Proof. exact promote_after_complete. Qed.
 Print Assumptions c05_promote_after_complete.
 
-(* A request for work never blocks: in every reachable state next_job returns a job, from an
-   open bracket (id >= primary) that has a free slot, or — exactly when no open bracket has a
-   free slot — from a newly created bracket. *)
+(* A request for work never blocks: in every reachable state next_job returns a job, from the
+   open bracket (id >= primary) with the LOWEST id that has a free slot, or — exactly when no
+   open bracket has a free slot — from a newly created bracket. *)
 Theorem c05_never_blocks :
   forall rss md ops st, check_bracket_rungs rss = true -> run_from rss md ops = Ok st ->
   exists m' bid s, next_job (s_mgr st) = Ok (m', (bid, s)) /\
     (m_primary (s_mgr st) <= bid)%nat /\
     ((length (m_brackets m') = length (m_brackets (s_mgr st)) /\ (bid < length (m_brackets (s_mgr st)))%nat /\
-      (exists b, nth_error (m_brackets (s_mgr st)) bid = Some b /\ has_free_slot b = true))
+      (exists b, nth_error (m_brackets (s_mgr st)) bid = Some b /\ has_free_slot b = true) /\
+      (forall j bj, (m_primary (s_mgr st) <= j < bid)%nat -> nth_error (m_brackets (s_mgr st)) j = Some bj ->
+                    has_free_slot bj = false))
      \/ (length (m_brackets m') = S (length (m_brackets (s_mgr st))) /\ bid = length (m_brackets (s_mgr st)) /\
          forall j b, (m_primary (s_mgr st) <= j)%nat -> nth_error (m_brackets (s_mgr st)) j = Some b ->
                      has_free_slot b = false)).
@@ -109,7 +129,9 @@ Theorem c05_offsets_cycle :
 Proof. exact offsets_cycle. Qed.
 Print Assumptions c05_offsets_cycle.
 
-(* No assertion / exception of the code is reachable: every event sequence is accepted. *)
+(* No assertion / exception of the code is reachable: every event sequence is accepted — also
+   when the searcher has no config (OSuggest false), including the manager's
+   len(_brackets) == len(_bracket_id_to_offset) check and the lookup in level_to_prev_level. *)
 Theorem c05_no_error :
   forall rss md ops, check_bracket_rungs rss = true -> exists st, run_from rss md ops = Ok st.
 Proof. exact no_error. Qed.
@@ -140,14 +162,27 @@ Theorem c05_no_eternal_pending :
 Proof. exact trial_error_fills_slot. Qed.
 Print Assumptions c05_no_eternal_pending.
 
+(* ... and (c) when the searcher has no config for a job that needs a new trial, suggest answers
+   None, nothing becomes pending and the job's slot holds NaN at once. *)
+Theorem c05_searcher_failure_fills_slot :
+  forall rss md ops st m' bid s, check_bracket_rungs rss = true ->
+    run_from rss md ops = Ok st -> next_job (s_mgr st) = Ok (m', (bid, s)) -> trial_id s = None ->
+    exists st', suggest st false = Ok (st', SNone) /\ s_pending st' = s_pending st /\
+      s_ntrials st' = s_ntrials st /\
+      exists b2 sl2 lv2, nth_error (m_brackets (s_mgr st')) bid = Some b2 /\
+        nth_error (rungs b2) (rung_index s) = Some (Filled sl2 lv2) /\
+        nth_error sl2 (slot_index s) = Some (None, Some NaN).
+Proof. exact searcher_failure_fills_slot. Qed.
+Print Assumptions c05_searcher_failure_fills_slot.
+
 (* non-vacuity: a rung system accepted by the constructor; three workers, one job fails, the
    first rung completes with a tie, the best two (stable order) are promoted, a second bracket
    was opened while the first one waited. *)
 Example c05_example :
   let rss : list rung_system :=
     [[(3%nat, 1%Z); (2%nat, 3%Z); (1%nat, 9%Z)]; [(2%nat, 3%Z); (1%nat, 9%Z)]] in
-  let ops := [OSuggest; OSuggest; OSuggest; OSuggest;
-              OReport 1 0 (Val (1 # 2)); OError 0; OReport 2 0 (Val (1 # 2)); OSuggest] in
+  let ops := [OSuggest true; OSuggest true; OSuggest true; OSuggest true;
+              OReport 1 0 (Val (1 # 2)); OError 0; OReport 2 0 (Val (1 # 2)); OSuggest true] in
   check_bracket_rungs rss = true /\
   match run_from rss Min ops with
   | Ok st =>
